@@ -188,6 +188,7 @@ let run_prop (prop : string) (path : string) =
   let shadow_pairs : (string, unit) Hashtbl.t = Hashtbl.create 16 in         (* app:pair with a shadow book *)
   let shadow_fills : (string, string) Hashtbl.t = Hashtbl.create 64 in       (* app:pair:id -> "matched paid recv" *)
   let shadow_kf : (string, unit) Hashtbl.t = Hashtbl.create 8 in             (* app:pair whose shadow book is inside kf_C05_1 *)
+  let shadow_env : (string, (batch_env * BinNums.coq_Z) list) Hashtbl.t = Hashtbl.create 8 in   (* app -> the engine's batches (ENV form) with their base net *)
   let m_hdr : string list ref = ref [] and m_need = ref 0 and m_rows : mo_row list ref = ref [] in
   let ex_flags : (string, string) Hashtbl.t = Hashtbl.create 8 in            (* app -> the implementation's executed flag *)
   let model_flags : (string * string) list ref = ref [] in
@@ -246,6 +247,27 @@ let run_prop (prop : string) (path : string) =
                judge_fill ~src:"engine" k (impl_order k) m (z r.mpaid) (z r.mrecv)
              end
            end) os0 rows;
+       (* the engine's result in the ENV form of the model: user fills in book order, each pool's net reserve change, dust *)
+       if res = "ok" && imatched then begin
+         let fills = L.concat (L.map2 (fun (o : AMM.order) (r : mo_row) ->
+             if r.mkind = "u" && not (zeq (zsub o.AMM.o_amt (z r.mopen)) z0 && zeq (z r.mpaid) z0 && zeq (z r.mrecv) z0)
+             then [(((z r.mid, zsub o.AMM.o_amt (z r.mopen)), z r.mpaid), z r.mrecv)] else []) os0 rows) in
+         let flows : (string, BinNums.coq_Z * BinNums.coq_Z) Hashtbl.t = Hashtbl.create 8 in
+         let order = ref [] in
+         L.iter2 (fun (o : AMM.order) (r : mo_row) ->
+             if r.mkind = "p" && not (zeq (z r.mpaid) z0 && zeq (z r.mrecv) z0) then begin
+               let (dq, db) = (try Hashtbl.find flows r.mid with Not_found -> (order := r.mid :: !order; (z0, z0))) in
+               let (dq, db) = (match o.AMM.o_dir with
+                   | AMM.Buy -> (zsub dq (z r.mpaid), zadd db (z r.mrecv))      (* pays quote, receives base *)
+                   | AMM.Sell -> (zadd dq (z r.mrecv), zsub db (z r.mpaid))) in
+               Hashtbl.replace flows r.mid (dq, db)
+             end) os0 rows;
+         let pools = L.map (fun id -> let (dq, db) = Hashtbl.find flows id in ((z id, dq), db)) (L.rev !order) in
+         let b = { b_pair = z p; b_matched = true; b_price = z price; b_fills = fills; b_pools = pools; b_dust = z qcd } in
+         let buy_of id = L.exists2 (fun (o : AMM.order) (r : mo_row) -> r.mkind = "u" && zeq (z r.mid) id && o.AMM.o_dir = AMM.Buy) os0 rows in
+         let bn = batch_base_net buy_of b in
+         Hashtbl.replace shadow_env a ((b, bn) :: (try Hashtbl.find shadow_env a with Not_found -> []))
+       end;
        if res = "ok" && c05 then begin
          let dom_p, model =
            if bool_of_tok has then (z lp, Some (AMM.run_match os0 (z lp)))
@@ -300,7 +322,11 @@ let run_prop (prop : string) (path : string) =
           | Some f when f <> "2" && mf <> "2" && mf <> "3" ->
             bump ("endblock:executed:" ^ f);
             if f <> mf then mismatch ~case:!case ~step:!step ~field:("end:app" ^ a ^ ":batch_executed") ~model:mf ~impl:f;
-            if f = "0" then pf ~pred:"endblock_batch_executed" ~kf:"none" ~detail:(Printf.sprintf "app=%s_batch_rolled_back_orders_and_requests_stay" a)
+            if f = "0" then begin
+              let nets = L.map snd (try Hashtbl.find shadow_env a with Not_found -> []) in
+              pf ~pred:"endblock_batch_executed" ~kf:(if kf_C05_2_stall nets then "kf_C05_2_stall" else "none")
+                ~detail:(Printf.sprintf "app=%s_batch_rolled_back_orders_and_requests_stay_engine_base_nets=%s" a (S.concat "," (L.map zs nets)))
+            end
           | _ -> ()) !model_flags;
       (* the orders put on the book: model (on_book over the stored records before the block) vs NewUserOrder calls *)
       Hashtbl.iter (fun ap () ->
@@ -338,7 +364,7 @@ let run_prop (prop : string) (path : string) =
                   mismatch ~case:!case ~step:!step ~field:("end:" ^ key ^ ":applied_fill_vs_engine") ~model:(S.map (fun c -> if c = ' ' then '_' else c) v) ~impl:"none"
                 | _ -> ()) shadow_fills
           end) envs;
-      Hashtbl.reset mi_ids; Hashtbl.reset shadow_pairs; Hashtbl.reset shadow_fills; Hashtbl.reset ex_flags; model_flags := []
+      Hashtbl.reset mi_ids; Hashtbl.reset shadow_pairs; Hashtbl.reset shadow_fills; Hashtbl.reset ex_flags; Hashtbl.reset shadow_env; model_flags := []
     | _ -> () in
 
   (* ------- C06 through the keeper: reserves and share supply of EVERY pool, after EVERY step ------- *)
@@ -629,7 +655,7 @@ let run_prop (prop : string) (path : string) =
         Hashtbl.reset fills_net; Hashtbl.reset nonconserving; Hashtbl.reset changed; Hashtbl.reset prev_changed;
         Buffer.clear sig_; seen_fill := false; seen_end := false; seen_pool := false; seen_farm := false; pending_mm := None;
         Hashtbl.reset mi_ids; Hashtbl.reset shadow_pairs; Hashtbl.reset shadow_fills; Hashtbl.reset shadow_kf; Hashtbl.reset ex_flags;
-        Hashtbl.reset wfee; Hashtbl.reset reported; model_flags := []; m_hdr := []; m_rows := []; m_need := 0; cur_parsed := None; cur_res := ""; seen_shadow_fill := false
+        Hashtbl.reset shadow_env; Hashtbl.reset wfee; Hashtbl.reset reported; model_flags := []; m_hdr := []; m_rows := []; m_need := 0; cur_parsed := None; cur_res := ""; seen_shadow_fill := false
       | "op" :: "endpanic" :: _ -> pf ~pred:"endblocker_no_panic" ~kf:"none" ~detail:"EndBlocker_panicked"
       | ["wfee"; a; r] -> Hashtbl.replace wfee a (z r)
       | ["ex"; a; f] -> Hashtbl.replace ex_flags a f
@@ -667,6 +693,19 @@ let run_prop (prop : string) (path : string) =
         incr step; incr steps;
         Hashtbl.reset changed; Hashtbl.reset prev_changed;
         let (o, res) = parse_op toks in
+        (* an app whose batch the implementation rolled back shows no fills in its records: the model is given the
+           engine's fills instead (what ExecuteMatching computed before ApplyMatchResult failed) and must roll back too *)
+        let o = (match o with
+            | OEnd (h, now, envs) ->
+              let apps_model = L.map (fun (a, _) -> zs a) (!model).apps in
+              let have = L.map (fun (e : app_env) -> zs e.e_app) envs in
+              let envs = envs @ L.filter_map (fun a -> if L.mem a have then None else Some { e_app = z a; e_batches = []; e_deps = []; e_wds = [] }) apps_model in
+              OEnd (h, now, L.map (fun (e : app_env) ->
+                  let a = zs e.e_app in
+                  if (try Hashtbl.find ex_flags a with Not_found -> "") = "0" && Hashtbl.mem shadow_env a
+                  then begin bump "end:rolled_back:engine_fills_as_env"; { e with e_batches = L.rev_map fst (Hashtbl.find shadow_env a) } end
+                  else e) envs)
+            | o -> o) in
         let kind = L.hd toks in
         cur_op := kind; cur_parsed := Some o; cur_res := res;
         (match o with
@@ -683,8 +722,9 @@ let run_prop (prop : string) (path : string) =
          | OFund (w, d, a) -> let k = zs w ^ ":" ^ zs d in Hashtbl.replace funded k (zadd (geti funded k) a)
          | OEnd (_, _, envs) ->
            L.iter (fun (e : app_env) ->
+               let applied = (try Hashtbl.find ex_flags (zs e.e_app) with Not_found -> "") <> "0" in   (* a rolled-back batch applied nothing *)
                L.iter (fun (b : batch_env) ->
-                   if b.b_matched then begin
+                   if b.b_matched && applied then begin
                      let ap = zs e.e_app ^ ":" ^ zs b.b_pair in
                      let buy_of id = (try (Hashtbl.find known (Printf.sprintf "ord:%s:%s" ap (zs id))).o_buy with Not_found -> false) in
                      let bn = batch_base_net buy_of b and qn = batch_quote_net buy_of b in
